@@ -22,6 +22,7 @@ def main():
     mod = importlib.import_module("checks." + prop.lower())
     if a.replay:
         sys.exit(mod.replay(ctx, a.replay))
+    common.arm_watchdog(ctx)
     rc = mod.run(ctx)
     sys.exit(rc)
 
